@@ -1168,3 +1168,15 @@ func asBool(o Object) Boolean {
 //@ loop 1 invariant [C12.read.ontape] old(readPre(s, p)) ==> onTapeRaw(s)
 //@ loop 1 invariant [C12.read.cursor] old(readPre(s, p)) ==> cursor(s) == old(cursor(s)) + n
 //@ loop 1 invariant [C12.read.bytes] old(readPre(s, p)) ==> (forall k :: 0 <= k && k < n ==> p[k] == tape(old(cursor(s)) + k))
+
+// C05: readstring returns the part of the operand string it filled -- the same
+// storage, from its start -- and true exactly when it filled all of it
+// (PLRM 8.2 readstring); the file operand is consumed.
+//@ func bReadstring
+//@ ensures [C05.readstring.underflow] old(depth(intp)) < 2 ==> isPSErr(result, eStackunderflow) && depth(intp) == old(depth(intp))
+//@ ensures [C05.readstring.type] old(depth(intp)) >= 2 && !isType(old(top(intp, 0)), String) ==> isPSErr(result, eTypecheck) && depth(intp) == old(depth(intp))
+//@ ensures [C05.readstring.shape] result == nil ==> depth(intp) == old(depth(intp)) && isType(top(intp, 1), String) && isBool(top(intp, 0)) && isType(old(top(intp, 0)), String) && ref(top(intp, 1).(String)) == ref(old(top(intp, 0)).(String)) && off(top(intp, 1).(String)) == off(old(top(intp, 0)).(String)) && len(top(intp, 1).(String)) <= len(old(top(intp, 0)).(String)) && bool(asBool(top(intp, 0))) == (len(top(intp, 1).(String)) == len(old(top(intp, 0)).(String)))
+//@ ensures [C05.readstring.below] result == nil ==> (forall k :: 2 <= k && k < old(depth(intp)) ==> top(intp, k) == old(top(intp, k)))
+
+//@ func bRepeat
+//@ loop 1 back-when [C03.repeat.advance] i == prev(i) + 1
